@@ -239,6 +239,7 @@ def _run_property(pid, tier, seed, args):
     os.makedirs(REPLAYS, exist_ok=True)
     os.makedirs(EVIDENCE, exist_ok=True)
     obls, vmetas = [], []
+    undecided = []   # parts that could not be decided; a violation found elsewhere is still reported
     for unit in P.get('verus', []):
         if tier != 'thorough' and unit.get('tier', 'quick') != 'quick':
             continue
@@ -246,13 +247,16 @@ def _run_property(pid, tier, seed, args):
             o, m = run_verus_unit(unit, tier)
         except Undecided as e:
             if not e.reach:
-                raise
+                undecided.append(str(e))
+                continue
             # The deductive verifier cannot reach the changed code. Only a concrete failing input found by running
-            # the real code against the executable spec may still raise an alarm; otherwise the answer is UNDECIDED.
+            # the real code against the executable spec may still raise an alarm; otherwise this part is UNDECIDED
+            # (the other units of the property - Kani harnesses on the unmodified code - still run and may decide).
             import witness
             w = witness.search(pid)
             if w is None:
-                raise
+                undecided.append(str(e))
+                continue
             o = [{'name': 'verus:%s:<unreachable>' % unit['tmpl'].replace('.rs.tmpl', ''), 'engine': 'native/differential',
                   'ok': False, 'time_ms': 0, 'bounded': False, 'witness': w,
                   'detail': ['verifier could not be applied (%s); native differential search found a failing input: %s expected %s got %s'
@@ -262,7 +266,6 @@ def _run_property(pid, tier, seed, args):
         if m is not None:
             vmetas.append(m)
     extra_obls, extra_meta = [], []
-    undecided = []   # parts that could not be decided; a violation found elsewhere is still reported
     for tool in P.get('tools', []):
         if tier != 'thorough' and tool.get('tier', 'quick') != 'quick':
             continue
